@@ -111,6 +111,7 @@ type outcome struct {
 	// both
 	latency time.Duration
 	partial bool
+	chunked bool // HTTP: the partial-success body is streamed (no Content-Length)
 
 	clientTimeout bool // derived: the per-attempt client timeout fired before the scripted response
 }
@@ -133,6 +134,9 @@ func (o outcome) String() string {
 		if o.retryInfo >= 0 {
 			s += fmt.Sprintf("+RetryInfo%v", o.retryInfo)
 		}
+	}
+	if o.chunked {
+		s += "+chunked"
 	}
 	if o.partial {
 		s += "+partial"
@@ -351,6 +355,12 @@ func (h *httpCollector) ServeHTTP(rw http.ResponseWriter, req *http.Request) {
 		}
 		rw.Header().Set("Content-Type", "application/x-protobuf")
 		rw.WriteHeader(200)
+		if oc.chunked {
+			// headers go out before the body: the response is chunked and its length unknown to the client
+			if f, ok := rw.(http.Flusher); ok {
+				f.Flush()
+			}
+		}
 		rw.Write(b)
 		return
 	}
@@ -478,6 +488,7 @@ func (engine) Body(r *simdrv.Run) {
 			}
 			if oc.success(w.isGRPC) {
 				oc.partial = r.Cfg(2) == 1
+				oc.chunked = oc.partial && !w.isGRPC && r.Cfg(2) == 1
 			}
 			rec.script = append(rec.script, oc)
 		}
